@@ -139,30 +139,47 @@ def sanSample (str : Int → Int) (t : IdMap) (vs : Nat) (x : PSample) : Option 
   else some { x with locs := x.locs.map t.get,
                      labels := x.labels.map (fun l => { l with key := str l.key, str := str l.str, numUnit := str l.numUnit }) }
 
+/-- index of the first empty string (`z`), or the table's length when there is none (one is appended then) -/
+def sanZ (p : PProfile) : Nat := (p.strings.findIdx? (· == "")).getD p.strings.length
+
+/-- the string table with an empty string guaranteed (before the swap) -/
+def sanStrings0 (p : PProfile) : List String :=
+  if (p.strings.findIdx? (· == "")).isSome then p.strings else p.strings ++ [""]
+
+def sanStrings (p : PProfile) : List String := swap0 (sanStrings0 p) (sanZ p)
+
+/-- the closure `str` for this payload -/
+def sanStr (p : PProfile) : Int → Int := strFix (sanStrings0 p).length (sanZ p)
+
+def sanSampleTypes (p : PProfile) : List VT := p.sampleTypes.map (fun x => ⟨sanStr p x.type, sanStr p x.unit⟩)
+
+/-- mappings renumbered 1…n, and the map old id → new id -/
+def sanMap (p : PProfile) : List PMapping × IdMap :=
+  renumber (·.id) (fun (m : PMapping) j => { m with id := j })
+    (p.mappings.map (fun m => { m with buildId := sanStr p m.buildId, filename := sanStr p m.filename })) 1 []
+
+def sanLoc1 (p : PProfile) : List PLocation × Bool := locPass1 (sanMap p).2 ((sanMap p).1.length + 1) p.locations
+
+def sanMappings (p : PProfile) : List PMapping :=
+  if (sanLoc1 p).2 then (sanMap p).1 ++ [⟨(sanMap p).1.length + 1, 0, 0, 0, 0, 0, 0⟩] else (sanMap p).1
+
+def sanFun (p : PProfile) : List PFunction × IdMap :=
+  renumber (·.id) (fun (f : PFunction) j => { f with id := j })
+    (p.functions.map (fun f => { f with name := sanStr p f.name, sysName := sanStr p f.sysName, filename := sanStr p f.filename })) 1 []
+
+def sanLoc (p : PProfile) : List PLocation × IdMap :=
+  renumber (·.id) (fun (l : PLocation) j => { l with id := j }) (locPass2 (sanFun p).2 (sanLoc1 p).1) 1 []
+
+def sanSamples (p : PProfile) : List PSample :=
+  p.samples.filterMap (sanSample (sanStr p) (sanLoc p).2 (sanSampleTypes p).length)
+
 def sanitize (p : PProfile) : PProfile :=
-  let ms0 := p.strings.length
-  let zi := p.strings.findIdx? (· == "")
-  let z := zi.getD ms0
-  let strings0 := if zi.isSome then p.strings else p.strings ++ [""]
-  let ms := strings0.length
-  let strings := swap0 strings0 z
-  let str := strFix ms z
-  let sampleTypes := p.sampleTypes.map (fun x => ⟨str x.type, str x.unit⟩)
-  let periodType := p.periodType.map (fun x => ⟨str x.type, str x.unit⟩)
-  let mp := renumber (·.id) (fun (m : PMapping) j => { m with id := j })
-              (p.mappings.map (fun m => { m with buildId := str m.buildId, filename := str m.filename })) 1 []
-  let l1 := locPass1 mp.2 (mp.1.length + 1) p.locations
-  let mappings := if l1.2 then mp.1 ++ [⟨mp.1.length + 1, 0, 0, 0, 0, 0, 0⟩] else mp.1
-  let fp := renumber (·.id) (fun (f : PFunction) j => { f with id := j })
-              (p.functions.map (fun f => { f with name := str f.name, sysName := str f.sysName, filename := str f.filename })) 1 []
-  let l2 := locPass2 fp.2 l1.1
-  let lp := renumber (·.id) (fun (l : PLocation) j => { l with id := j }) l2 1 []
-  let samples := p.samples.filterMap (sanSample str lp.2 sampleTypes.length)
-  { strings := strings, sampleTypes := sampleTypes, periodType := periodType, samples := samples,
-    mappings := mappings, locations := lp.1, functions := fp.1,
-    dropFrames := str p.dropFrames, keepFrames := str p.keepFrames, timeNanos := p.timeNanos,
-    durationNanos := p.durationNanos, period := p.period, comments := p.comments.map str,
-    defaultSampleType := str p.defaultSampleType }
+  { strings := sanStrings p, sampleTypes := sanSampleTypes p,
+    periodType := p.periodType.map (fun x => ⟨sanStr p x.type, sanStr p x.unit⟩), samples := sanSamples p,
+    mappings := sanMappings p, locations := (sanLoc p).1, functions := (sanFun p).1,
+    dropFrames := sanStr p p.dropFrames, keepFrames := sanStr p p.keepFrames, timeNanos := p.timeNanos,
+    durationNanos := p.durationNanos, period := p.period, comments := p.comments.map (sanStr p),
+    defaultSampleType := sanStr p p.defaultSampleType }
 
 /-! ## keys of the rewrite tables -/
 
@@ -278,40 +295,66 @@ def combineHeaders (a : Header) (timeNanos durationNanos period defaultSampleTyp
     period := if a.period = 0 ∨ a.period < period then period else a.period
     defaultSampleType := if a.defaultSampleType = 0 then defaultSampleType else a.defaultSampleType }
 
-/-- `ProfileMergeV2.Merge(p)` -/
+/-- the string table after interning the payload's strings, and `strIdx` as a function on (sanitized) indices -/
+def stepStrings (strings : List String) (p : PProfile) : List String × (Int → Int) :=
+  let sr := internAll (fun (s : String) => s) (fun s _ => s) strings p.strings
+  (sr.1, ix (sr.2.map (· - 1)))
+
+def rewriteFunction (sx : Int → Int) (f : PFunction) : PFunction :=
+  { f with name := sx f.name, filename := sx f.filename, sysName := sx f.sysName }
+
+def rewriteMapping (sx : Int → Int) (m : PMapping) : PMapping :=
+  { m with buildId := sx m.buildId, filename := sx m.filename }
+
+def rewriteLocation (fidx midx : List Nat) (l : PLocation) : PLocation :=
+  { l with lines := l.lines.map (fun ln => { ln with fn := idAt fidx ln.fn }), mapping := idAt midx l.mapping }
+
+def rewriteSample (sx : Int → Int) (lidx : List Nat) (s : PSample) : PSample :=
+  { s with labels := s.labels.map (fun l => { l with key := sx l.key, str := sx l.str, numUnit := sx l.numUnit }),
+           locs := s.locs.map (idAt lidx) }
+
+def stepFunctions (sx : Int → Int) (tab : List PFunction) (p : PProfile) : List PFunction × List Nat :=
+  internAll funKey (fun f i => { f with id := i }) tab (p.functions.map (rewriteFunction sx))
+
+def stepMappings (sx : Int → Int) (tab : List PMapping) (p : PProfile) : List PMapping × List Nat :=
+  internAll mapKey (fun m i => { m with id := i }) tab (p.mappings.map (rewriteMapping sx))
+
+def stepLocations (fidx midx : List Nat) (tab : List PLocation) (p : PProfile) : List PLocation × List Nat :=
+  internAll locKey (fun l i => { l with id := i }) tab (p.locations.map (rewriteLocation fidx midx))
+
+def stepSamples (sx : Int → Int) (lidx : List Nat) (tab : List PSample) (p : PProfile) : List PSample :=
+  (p.samples.map (rewriteSample sx lidx)).foldl upsertSample tab
+
+/-- the header `Merge` works with: `pm.prof`, or what `init(p)` makes of the first payload -/
+def headerFor (st : Option Header) (sx : Int → Int) (p : PProfile) (pt : VT) : Header :=
+  match st with
+  | some h => h
+  | none => ⟨sx p.dropFrames, sx p.keepFrames, p.timeNanos, 0, pt, p.period, sx p.defaultSampleType,
+             p.sampleTypes.map (fun s => (⟨sx s.type, sx s.unit⟩ : VT))⟩
+
+/-- `ProfileMergeV2.Merge(p)` on a payload that is not skipped, already sanitized -/
+def mergeSanitized (st : MState) (p : PProfile) : Except MergeErr MState :=
+  let ss := stepStrings st.strings p
+  let sx := ss.2
+  match p.periodType with
+  | none => .error .nilPeriodType
+  | some pt0 =>
+    let pt : VT := ⟨sx pt0.type, sx pt0.unit⟩
+    let sts := p.sampleTypes.map (fun s => (⟨sx s.type, sx s.unit⟩ : VT))
+    let h0 := headerFor st.header sx p pt
+    if !(compatible h0 pt sts) then .error .incompatible
+    else
+      let h := combineHeaders h0 p.timeNanos p.durationNanos p.period (sx p.defaultSampleType)
+      let fr := stepFunctions sx st.functions p
+      let mr := stepMappings sx st.mappings p
+      let lr := stepLocations fr.2 mr.2 st.locations p
+      .ok ⟨some h, ss.1, fr.1, mr.1, lr.1, stepSamples sx lr.2 st.samples p⟩
+
+/-- `ProfileMergeV2.Merge(p)`: payloads without samples or with fewer than two strings are skipped -/
+def skipped (p : PProfile) : Bool := p.samples.isEmpty || decide (p.strings.length < 2)
+
 def mergeOne (st : MState) (p0 : PProfile) : Except MergeErr MState :=
-  if p0.samples.isEmpty ∨ p0.strings.length < 2 then .ok st
-  else
-    let p := sanitize p0
-    let sr := internAll (fun (s : String) => s) (fun s _ => s) st.strings p.strings
-    let strings := sr.1
-    let sx := ix (sr.2.map (· - 1))
-    match p.periodType with
-    | none => .error .nilPeriodType
-    | some pt0 =>
-      let pt : VT := ⟨sx pt0.type, sx pt0.unit⟩
-      let sts := p.sampleTypes.map (fun s => (⟨sx s.type, sx s.unit⟩ : VT))
-      let dropFrames := sx p.dropFrames
-      let keepFrames := sx p.keepFrames
-      let dst := sx p.defaultSampleType
-      let h0 : Header := match st.header with
-        | some h => h
-        | none => ⟨dropFrames, keepFrames, p.timeNanos, 0, pt, p.period, dst, sts⟩
-      if !(compatible h0 pt sts) then .error .incompatible
-      else
-        let h := combineHeaders h0 p.timeNanos p.durationNanos p.period dst
-        let fr := internAll funKey (fun f i => { f with id := i }) st.functions
-          (p.functions.map (fun f => { f with name := sx f.name, filename := sx f.filename, sysName := sx f.sysName }))
-        let mr := internAll mapKey (fun m i => { m with id := i }) st.mappings
-          (p.mappings.map (fun m => { m with buildId := sx m.buildId, filename := sx m.filename }))
-        let lr := internAll locKey (fun l i => { l with id := i }) st.locations
-          (p.locations.map (fun l => { l with lines := l.lines.map (fun ln => { ln with fn := idAt fr.2 ln.fn }),
-                                              mapping := idAt mr.2 l.mapping }))
-        let samples := p.samples.foldl (fun tab s =>
-          upsertSample tab { s with
-            labels := s.labels.map (fun l => { l with key := sx l.key, str := sx l.str, numUnit := sx l.numUnit }),
-            locs := s.locs.map (idAt lr.2) }) st.samples
-        .ok ⟨some h, strings, fr.1, mr.1, lr.1, samples⟩
+  if skipped p0 then .ok st else mergeSanitized st (sanitize p0)
 
 /-- one `Merge` call per payload, stopping at the first error (`MergeProfiles` returns it) -/
 def mergeAll : MState → List PProfile → Except MergeErr MState
